@@ -479,6 +479,14 @@ def o_fault_call(p, cfg):
     if sc.startswith("delete_object"):
         if out[0] == "return" and bound:
             return True, "delete_object reported success but the pid is still bound"
+        if out[0] == "return":
+            listed = [c for c, lst in after["C"].items() if pid in lst]
+            if listed:
+                return True, (f"delete_object reported success after {p['prim']}@{p['target']} but the pid is "
+                              "still listed in its cid's reference list (the object can never be reclaimed)")
+            if "sole" in sc and (cid in after["O"] or cid in after["C"]):
+                return True, (f"delete_object of the sole reference reported success after {p['prim']}@"
+                              f"{p['target']} but the object / its reference list were left behind")
         return False, f"{out[0]}; pid bound={bound}"
     if out[0] == "return":
         ok = bound and after["P"][pid] == cid and pid in after["C"].get(cid, [])
@@ -1117,6 +1125,23 @@ def o_config_matrix(p, cfg):
     out = outcome(FileHashStore, same)
     if out[0] != "return":
         return True, f"integer-like strings for depth/width refused: {out[1]}"
+    # a store directory that lost its hashstore.yaml is refused, and the refusal creates nothing
+    # (a retry must not find a configuration file written by the first, refused attempt)
+    ypath = os.path.join(base["store_path"], "hashstore.yaml")
+    ytext = open(ypath, "rb").read()
+    os.remove(ypath)
+    before2 = _tree(base["store_path"])
+    for attempt in (1, 2):
+        out = outcome(FileHashStore, dict(base, store_algorithm="MD5" if base["store_algorithm"] != "MD5"
+                                          else "SHA-256"))
+        if out[0] == "return":
+            return True, (f"a directory with store data but no hashstore.yaml was opened (attempt {attempt}) "
+                          "with a configuration the data was not written with")
+        if _tree(base["store_path"]) != before2:
+            new = sorted(set(_tree(base["store_path"])) - set(before2))
+            return True, f"a refused constructor call created {new} in the store directory"
+    with open(ypath, "wb") as fh:
+        fh.write(ytext)
     # the configuration is what hashstore.yaml says now, not what an earlier store at the same path
     # said: remove the store, create another one at the same path with another configuration
     shutil.rmtree(base["store_path"])
@@ -1312,6 +1337,24 @@ def o_crash_recover(p, cfg):
                 os.remove = lambda *a, **kw: (bump(), rm(*a, **kw))[1]
                 _sh.move = lambda *a, **kw: (bump(), mv(*a, **kw))[1]
                 os.makedirs = lambda *a, **kw: (bump(), mk(*a, **kw))[1]
+                # a crash just after a permanent file was opened for writing (truncated or
+                # positioned) and before anything written to it has reached the disk
+                import builtins as _b
+                real_open = _b.open
+                sroot = os.path.abspath(props["store_path"])
+
+                def crash_open(file, mode="r", *a, **kw):
+                    fh = real_open(file, mode, *a, **kw)
+                    try:
+                        ap = os.path.abspath(str(file))
+                    except Exception:      # noqa: BLE001
+                        return fh
+                    if any(c in mode for c in "wa+") and ap.startswith(sroot + os.sep) \
+                            and (os.sep + "tmp" + os.sep) not in ap[len(sroot):]:
+                        bump()
+                    return fh
+                _b.open = crash_open
+                io.open = crash_open
                 try:
                     if sc.startswith("store"):
                         store.store_object("victim", data)
@@ -1728,6 +1771,51 @@ def o_mp_fork_wait(p, cfg):
     return False, "the waiting process was woken by the release in the other process"
 
 
+def o_store_with_cwd_decoy(p, cfg):
+    """C01 without the working-directory assumption: the process's cwd holds a file that is named
+    like the digest of the content being stored (stale bytes, or the very file that is ingested by
+    its relative name); the bytes must end up inside the store and come back unchanged."""
+    store, props, root = new_store(cfg)
+    lay = layout.Layout(props)
+    alg = layout.HASHLIB[props["store_algorithm"]]
+    content = b"content whose digest names a file in the working directory"
+    cid = hashlib.new(alg, content).hexdigest()
+    scratch = os.path.join(root, "scratch")
+    os.makedirs(scratch)
+    old = os.getcwd()
+    os.chdir(scratch)
+    try:
+        with open(cid, "wb") as fh:
+            fh.write(b"stale bytes under the same name")
+        out = outcome(store.store_object, "pid-decoy", tmp_input(root, content, "real.bin"))
+        if out[0] != "return":
+            return True, f"store_object raised {out[1]}: {out[2]}"
+        if cid not in lay.view()["O"]:
+            return True, ("store_object reported success but no object was written inside the store: a file "
+                          "of the working directory that is named like the cid was taken for the object")
+        got = store.retrieve_object("pid-decoy").read()
+        if got != content:
+            return True, "retrieve_object returns the bytes of a file outside the store"
+        # ingest a file by a relative name that is its own digest
+        c2 = b"ingested by its own digest as relative name"
+        d2 = hashlib.new(alg, c2).hexdigest()
+        with open(d2, "wb") as fh:
+            fh.write(c2)
+        out = outcome(store.store_object, "pid-self", d2)
+        if out[0] != "return":
+            return True, f"store_object(relative name) raised {out[1]}: {out[2]}"
+        if d2 not in lay.view()["O"]:
+            return True, "a file ingested by a relative name equal to its digest was not copied into the store"
+    finally:
+        os.chdir(old)
+    shutil.rmtree(scratch, ignore_errors=True)
+    got = outcome(lambda: store.retrieve_object("pid-self").read())
+    if got[0] != "return" or got[1] != c2:
+        return True, "the ingested bytes are not retrievable once the working directory is gone"
+    return False, "objects are stored inside the store whatever the working directory holds"
+
+
+ORACLES["store_with_cwd_decoy"] = o_store_with_cwd_decoy
 ORACLES["mp_fork_wait"] = o_mp_fork_wait
 ORACLES["race_meta_pause"] = o_race_meta_pause
 ORACLES["race_wakeup"] = o_race_wakeup
